@@ -353,6 +353,21 @@ pub fn entries_filtered(base: &MpcCase, corrupt: usize, all_idx: bool, salt: usi
     for r in indices(40, all_idx, salt) {
         out.push(tap("aShare: committed and opened check bit flipped, MACs intact (tap)", "fashare_dm", Some(r), TapAction::Flip, "fashare ver", 0, wl(&ASHARE)));
     }
+    // two (and four) committed lies in one aShare call: they would cancel in a check aggregated over the rounds
+    for set in [vec![0usize, 1], vec![3, 39], vec![5 + salt % 30, 6 + salt % 30], vec![0, 1, 2, 3]] {
+        let mut e = tap("aShare: committed check bit flipped in several rounds (tap)", "fashare_dm", Some(set[0]), TapAction::Flip, "fashare ver", 0, wl(&ASHARE));
+        e.attack.taps = set.iter().map(|r| TapSpec { site: "fashare_dm".into(), idx: Some(*r), action: TapAction::Flip }).collect();
+        out.push(e);
+    }
+    for (a, b) in [(0usize, 1usize), (8, 9), (1, 3)] {
+        // own d-value shares: two of one bucket (indices j*8+m) / one in each of two buckets
+        let mut e = tap("bucket: two own d-value shares altered (tap)", "dvalue_share", Some(a), TapAction::Flip, "dvalue", 0, wl(&["dvalue"]));
+        e.attack.taps = [a, b].iter().map(|i| TapSpec { site: "dvalue_share".into(), idx: Some(*i), action: TapAction::Flip }).collect();
+        out.push(e);
+        let mut e = tap("Beaver: own d shares of two triples altered (tap)", "beaver_d", Some(a), TapAction::Flip, "faand", 0, wl(&["faand"]));
+        e.attack.taps = [a % 8, b % 8].iter().map(|i| TapSpec { site: "beaver_d".into(), idx: Some(*i), action: TapAction::Flip }).collect();
+        out.push(e);
+    }
     // aBit: the cheater uses other choice bits in the OT extension towards one party than the bit
     // string it runs the aBit test with (for n=3: other bits than towards the third party).
     // Index sets: single positions and pairs at the strides at which word/half-word oriented
